@@ -120,7 +120,7 @@ func (c *FnCtx) ghostIntrinsic(fr *Frame, st *State, fn *ssa.Function, args []*T
 		return []*Term{c.getCell(st, c.curFrame.iterByLoop[int(k)].count)}, true
 	case "verifHeight":
 		return []*Term{c.height(st, args[0])}, true
-	case "verifMapsSameExcept", "verifMapSameExceptKey", "verifMapSameExceptKeys", "verifOldHas", "verifOldGet", "verifOldLen":
+	case "verifMapsSameExcept", "verifMapSameExceptKey", "verifMapSameExceptKeys", "verifOldHas", "verifOldGet", "verifOldLen", "verifOldTrueB", "verifGrowsB":
 		return c.heapRelIntrinsic(st, fn.Name(), args), true
 	case "verifInfallibleWriter": // the writer is an in-memory buffer: Write never fails and accepts all bytes
 		return []*Term{ts.UF("infallibleWriter", SBool, args[0])}, true
@@ -967,6 +967,18 @@ func (c *FnCtx) heapRelIntrinsic(st *State, name string, args []*Term) []*Term {
 		return []*Term{ts.Quant("forall", k, ts.Implies(ts.And(conds...), body))}
 	case "verifOldHas":
 		return []*Term{ts.Select(ts.Select(dom0, args[0]), args[1])}
+	case "verifGrowsB": // map[string]bool used as a set: every member of the old set is still a member
+		mhb := c.mapHeaps(st, types.NewMap(types.Typ[types.String], types.Typ[types.Bool]))
+		d0, s0 := c.heap(old, mhb.dom, mhb.sdom), c.heap(old, mhb.sel, mhb.ssel)
+		d1, s1 := c.heap(st, mhb.dom, mhb.sdom), c.heap(st, mhb.sel, mhb.ssel)
+		k := ts.BoundNamed("k!grows", SString)
+		in0 := ts.And(ts.Select(ts.Select(d0, args[0]), k), ts.Select(ts.Select(s0, args[0]), k))
+		in1 := ts.And(ts.Select(ts.Select(d1, args[0]), k), ts.Select(ts.Select(s1, args[0]), k))
+		return []*Term{ts.Quant("forall", k, ts.Implies(in0, in1))}
+	case "verifOldTrueB": // map[string]bool: the entry was present and true in the old state
+		mhb := c.mapHeaps(st, types.NewMap(types.Typ[types.String], types.Typ[types.Bool]))
+		d0, s0 := c.heap(old, mhb.dom, mhb.sdom), c.heap(old, mhb.sel, mhb.ssel)
+		return []*Term{ts.And(ts.Select(ts.Select(d0, args[0]), args[1]), ts.Select(ts.Select(s0, args[0]), args[1]))}
 	case "verifOldGet":
 		return []*Term{ts.Select(ts.Select(sel0, args[0]), args[1])}
 	case "verifOldLen":
